@@ -13,6 +13,11 @@ from harness.impl import py_impl
 from harness.model import client
 
 
+# files included by some of the definition sets: what they define is used by nobody, the Include nodes only take part in the sort
+INCLUDED = ['inc_a', 'inc_b', 'inc_c']
+INCLUDED_XML = '<dom><constant name="IK_%s" value="3"/><typedef name="IT_%s" type="u16"/></dom>'
+
+
 def compile_isar(xml, workdir, base):
     src = os.path.join(workdir, base + '.xml')
     with open(src, 'w') as f:
@@ -60,10 +65,51 @@ def include_named_like_a_definition(chk, workdir):
 
 
 def classify_c15(case, detail):
-    """D79: `--prophy_out` (SchemaTranslator has no translate_typedef) lists no typedef"""
+    """D79: `--prophy_out` (SchemaTranslator has no translate_typedef) lists no typedef;
+    D172: the isar front-end drops a struct / union / enum / message element that has no child elements"""
     if case.get('rule') == '--prophy_out lists every definition' and detail.get('missing_kinds') == ['Typedef']:
         return 'D79'
+    if case.get('rule') == 'isar definitions without child elements' and detail.get('missing') and set(detail['missing']) <= set(case.get('childless', [])):
+        return 'D172'
     return None
+
+
+def childless_definitions(chk, workdir):
+    """every definition of the input is in the output: also a struct / message / union / enum element without child elements
+    (dropped by the isar front-end: known finding D172); the same struct emptied by a patch rule is kept"""
+    d = os.path.join(workdir, 'childless')
+    os.makedirs(d)
+    other = '<struct name="Other"><member name="a" type="u8"/></struct>'
+    for note, body, childless, patch in [
+        ('childless struct and message', '<struct name="Empty"/>' + other + '<message name="Ping"/>', ['Empty', 'Ping'], None),
+        ('childless enum and union', '<enum name="E"/>' + other + '<union name="U"/>', ['E', 'U'], None),
+        ('struct emptied by a patch rule', '<struct name="Empty"><member name="dummy" type="u8"/></struct>' + other, [], 'Empty remove dummy\n'),
+    ]:
+        base = 'c%d' % len(os.listdir(d))
+        src = os.path.join(d, base + '.xml')
+        with open(src, 'w') as f:
+            f.write('<x>%s</x>' % body)
+        args = ['--isar', '--python_out', d]
+        if patch:
+            with open(src + '.patch', 'w') as f:
+                f.write(patch)
+            args += ['--patch', src + '.patch']
+        casej = {'xml': '<x>%s</x>' % body, 'rule': 'isar definitions without child elements', 'childless': childless, 'patch': patch}
+        chk.count(('childless', note), True)
+        chk.bump('directed:childless definitions')
+        try:
+            res, _ = py_impl.run_prophyc(args + [src])
+        except Exception as ex:  # noqa
+            if py_impl.exc_class(ex) != 'ProphycError':
+                chk.property_violation(casej, {'what': 'prophyc failed: %s: %s' % (type(ex).__name__, str(ex)[:300])})
+            continue             # refusing such an element with a diagnostic is fine
+        import re
+        defined = re.findall(r'<(?:struct|message|union|enum) name="(\w+)"', body)
+        listed = [n.name for n in res[base]]
+        missing = [n for n in defined if listed.count(n) != 1]
+        if missing:
+            chk.property_violation(casej, {'what': 'accepted without a diagnostic, but %s of the input are not in the output' % missing, 'missing': missing,
+                                           'output': listed}, classify_c15)
 
 
 def prophy_out_lists_everything(chk, workdir):
@@ -105,6 +151,8 @@ def run_c15(tier):
     try:
         reqs, rows = [], []
         directed = dag.directed_sets()
+        for i in INCLUDED:
+            compile_isar(INCLUDED_XML % (i.upper(), i.upper()), workdir, i)
         for gi in range(chk.scale(120, 1200)):
             sc = directed[gi] if gi < len(directed) else dag.gen_dag(chk.rng, n=chk.rng.randint(4, 12), enum_heavy=(gi % 3 == 0))
             deps = dag.true_deps(sc)
@@ -116,16 +164,24 @@ def run_c15(tier):
                     chk.rng.shuffle(order)
                 else:
                     order.reverse()
-                xml = isar.to_isar(sc, order)
+                # every third definition set also includes 1..3 files (Include nodes stand in the sorted list without being definitions)
+                incs = INCLUDED[:1 + (gi // 3) % 3] if gi % 3 == 1 else []
+                xml = isar.to_isar(sc, order, includes=[i + '.xml' for i in incs])
                 base = 'g%dp%d' % (gi, pi)
                 casej = {'xml': xml}
+                if incs:
+                    casej['included_files'] = dict((i + '.xml', INCLUDED_XML % (i.upper(), i.upper())) for i in incs)
+                    chk.bump('with-%d-includes' % len(incs))
                 try:
                     nodes = compile_isar(xml, workdir, base)
                 except Exception as ex:  # noqa
                     chk.count((gi, pi))
                     chk.property_violation(casej, {'what': 'prophyc failed on an acyclic definition set: %s: %s' % (type(ex).__name__, str(ex)[:300])})
                     continue
-                got = [n.name for n in nodes]
+                got = [n.name for n in nodes if type(n).__name__ != 'Include']
+                if [n.name for n in nodes if type(n).__name__ == 'Include'] != incs:
+                    chk.property_violation(casej, {'what': 'the included files are not listed once each, in the order they are written',
+                                                   'output': [n.name for n in nodes]})
                 # was the input order already fine?
                 parser_order = [d['name'] for d in isar.topo_decls(sc, order)]
                 seen, trivial = set(), True
@@ -148,7 +204,11 @@ def run_c15(tier):
                         seen.add(n)
                 # property: the generated module imports
                 try:
-                    py_impl.import_file(os.path.join(workdir, base + '.py'))
+                    if incs:
+                        from harness.checks import files as F
+                        F.import_package(workdir, incs + [base])
+                    else:
+                        py_impl.import_file(os.path.join(workdir, base + '.py'))
                 except Exception as ex:  # noqa
                     chk.property_violation(casej, {'what': 'generated Python module does not import: %s: %s' % (type(ex).__name__, str(ex)[:200]), 'output': got})
                 # property: same layout across permutations
@@ -158,10 +218,11 @@ def run_c15(tier):
                 elif layout != baseline:
                     chk.property_violation(casej, {'what': 'layout differs between permutations of the same definitions', 'this': layout, 'first': baseline})
                 # correspondence: the model of topological_sort
-                reqs.append({'op': 'prophyc_topo', 'decls': isar.topo_decls(sc, order)})
+                reqs.append({'op': 'prophyc_topo', 'decls': isar.topo_decls(sc, order, includes=incs)})
                 rows.append((casej, got))
         include_named_like_a_definition(chk, workdir)
         prophy_out_lists_everything(chk, workdir)
+        childless_definitions(chk, workdir)
         ans = client.batch(reqs)
         for (casej, got), a in zip(rows, ans):
             chk.corr_compared += 1
